@@ -471,7 +471,7 @@ PersistentAccess
 persistent_fetch_part(void *dst, PersistentStorage *store,
                       size_t offset, size_t n)
 {
-    if ((offset + n) > store->data.size) {
+    if (n > store->data.size || offset > (store->data.size - n)) {
         return PERSISTENT_ACCESS_ADDRESS_OUT_OF_RANGE;
     }
 
@@ -510,7 +510,7 @@ PersistentAccess
 persistent_store_part(PersistentStorage *store, const void *src,
                       size_t offset, size_t n)
 {
-    if ((offset + n) > store->data.size) {
+    if (n > store->data.size || offset > (store->data.size - n)) {
         return PERSISTENT_ACCESS_ADDRESS_OUT_OF_RANGE;
     }
 
